@@ -17,7 +17,8 @@ import (
 // binframe <udp|tcp|unixgram> <hexpayload> [pfdict…]: one payload into a freshly started BUILT exporter (all tag
 // syntaxes on, no mapping file) over the given transport; then the listener/parser accounting counters of main.go's
 // wiring, read from /metrics once they are stable:
-//   lines toolong udp unixgram tcpconn samples errs tagerrs tags
+//
+//	lines toolong udp unixgram tcpconn samples errs tagerrs tags
 func mergedDict(payload string) string {
 	seen := map[string]bool{}
 	var out []string
